@@ -83,6 +83,15 @@ CHECKS = {
         note='Trusted: z3 (arrays + bit-vectors), SInt proxy, E1. Bounds: widths 8/16/32, first store at base+8, other offsets in a window of 12-23 bytes; '
              'programs and rep clauses: see DESIGN (part P).',
         design='5/C07', engine='E2+E1'),
+    'C12': dict(
+        level='model_checking',
+        technique='symbolic execution of the real expr_simp/eval_expr/eval_instr with the per-node memo flags replaced by symbolic booleans (one-step obligation instead of histories) + structural frame-condition monitor; z3',
+        text='Partial claim. No histories are enumerated: (b) the memo flags is_eval/simp are replaced, by a harness-side descriptor, with one symbolic boolean per node constrained only by what an honest '
+             'earlier call can leave behind; the result of the probe call under ANY admissible flags must be structurally equal (SMT) to its result with all flags clear, for all constants; a counterexample is turned '
+             'into a concrete two-call history and replayed. (a) frame condition on every path incl. raising ones: arguments, machine state and other machines structurally unchanged. '
+             'Not addressed: on-disk PLY parser tables, general histories up to 50 calls, dis/asm/lift APIs.',
+        note='Trusted: z3, SInt proxy, the admissibility predicate for memo flags (stated in evidence bounds). Clauses about the parser-table cache directory and CPython heap aliasing are outside the claim.',
+        design='5/C12', engine='E2'),
 }
 
 NOT_APPLICABLE = {
